@@ -15,10 +15,29 @@ structure Closed (σ : Type) where
   bind : ∀ {α β : Type} (x : EM σ α) (f : α → EM σ β), P x → (∀ a, P (f a)) → P (x >>= f)
   fail : ∀ {α : Type} (m : String), P (fail m : EM σ α)
 
-/-- every operation of the converter satisfies the predicate -/
-structure OpsOK {σ : Type} (C : Closed σ) (cv : Conv σ) : Prop where
+/-- every operation of the converter that the expression walk (and plain stores) use satisfies the predicate -/
+structure ExprOps {σ : Type} (C : Closed σ) (cv : Conv σ) : Prop where
   stringToString : ∀ s, C.P (cv.stringToString s)
   varDefinition : ∀ n v g, C.P (cv.varDefinition n v g)
+  unaryOperation : ∀ e o t u, C.P (cv.unaryOperation e o t u)
+  binaryOperation : ∀ l o r t u, C.P (cv.binaryOperation l o r t u)
+  comparison : ∀ l o r t u, C.P (cv.comparison l o r t u)
+  logicalOperation : ∀ l o r t u, C.P (cv.logicalOperation l o r t u)
+  varEvaluation : ∀ n u g, C.P (cv.varEvaluation n u g)
+  sliceInstantiation : ∀ vs u, C.P (cv.sliceInstantiation vs u)
+  sliceEvaluation : ∀ n i u, C.P (cv.sliceEvaluation n i u)
+  sliceLen : ∀ n u, C.P (cv.sliceLen n u)
+  stringSubscript : ∀ v a b u, C.P (cv.stringSubscript v a b u)
+  stringLen : ∀ v u, C.P (cv.stringLen v u)
+  funcCall : ∀ n a r u, C.P (cv.funcCall n a r u)
+  appCall : ∀ cs u, C.P (cv.appCall cs u)
+  input : ∀ p u, C.P (cv.input p u)
+  copy : ∀ d s u g, C.P (cv.copy d s u g)
+  exists_ : ∀ p u, C.P (cv.exists_ p u)
+  readFile : ∀ p u, C.P (cv.readFile p u)
+
+/-- the statement-level operations satisfy the predicate -/
+structure StmtOps {σ : Type} (C : Closed σ) (cv : Conv σ) : Prop where
   sliceAssignment : ∀ n i v d g, C.P (cv.sliceAssignment n i v d g)
   funcStart : ∀ n ps, C.P (cv.funcStart n ps)
   funcEnd : C.P cv.funcEnd
@@ -40,25 +59,9 @@ structure OpsOK {σ : Type} (C : Closed σ) (cv : Conv σ) : Prop where
   panic : ∀ v, C.P (cv.panic v)
   writeFile : ∀ p c a, C.P (cv.writeFile p c a)
   nop : C.P cv.nop
-  unaryOperation : ∀ e o t u, C.P (cv.unaryOperation e o t u)
-  binaryOperation : ∀ l o r t u, C.P (cv.binaryOperation l o r t u)
-  comparison : ∀ l o r t u, C.P (cv.comparison l o r t u)
-  logicalOperation : ∀ l o r t u, C.P (cv.logicalOperation l o r t u)
-  varEvaluation : ∀ n u g, C.P (cv.varEvaluation n u g)
-  sliceInstantiation : ∀ vs u, C.P (cv.sliceInstantiation vs u)
-  sliceEvaluation : ∀ n i u, C.P (cv.sliceEvaluation n i u)
-  sliceLen : ∀ n u, C.P (cv.sliceLen n u)
-  stringSubscript : ∀ v a b u, C.P (cv.stringSubscript v a b u)
-  stringLen : ∀ v u, C.P (cv.stringLen v u)
-  funcCall : ∀ n a r u, C.P (cv.funcCall n a r u)
-  appCall : ∀ cs u, C.P (cv.appCall cs u)
-  input : ∀ p u, C.P (cv.input p u)
-  copy : ∀ d s u g, C.P (cv.copy d s u g)
-  exists_ : ∀ p u, C.P (cv.exists_ p u)
-  readFile : ∀ p u, C.P (cv.readFile p u)
 
 section
-variable {σ : Type} (C : Closed σ) (cv : Conv σ) (ops : OpsOK C cv)
+variable {σ : Type} (C : Closed σ) (cv : Conv σ) (ops : ExprOps C cv)
 include ops
 
 mutual
@@ -217,6 +220,9 @@ theorem assignCallValues_closed (vars : List Var) (call : Expr) : C.P (assignCal
   · exact C.fail _
   · exact storeValues_closed C cv ops _ _
 
+variable (sops : StmtOps C cv)
+include sops
+
 mutual
 theorem evalStmt_closed (hp : PanicOK C) (st : Stmt) : C.P (evalStmt cv st) := by
   match st with
@@ -227,27 +233,27 @@ theorem evalStmt_closed (hp : PanicOK C) (st : Stmt) : C.P (evalStmt cv st) := b
   | .sliceAssign v index value =>
     unfold evalStmt
     exact C.bind _ _ (evalExpr_closed C cv ops index true) (fun _ => C.bind _ _ (evalExpr_closed C cv ops value true) (fun _ =>
-      C.bind _ _ (defaultValue_closed C cv ops _) (fun _ => ops.sliceAssignment _ _ _ _ _)))
+      C.bind _ _ (defaultValue_closed C cv ops _) (fun _ => sops.sliceAssignment _ _ _ _ _)))
   | .funcDef name pub rets params body =>
     unfold evalStmt
-    exact C.bind _ _ (ops.funcStart _ _) (fun _ => C.bind _ _ (evalBlock_closed hp body) (fun _ => ops.funcEnd))
+    exact C.bind _ _ (sops.funcStart _ _) (fun _ => C.bind _ _ (evalBlock_closed hp body) (fun _ => sops.funcEnd))
   | .ret vals =>
     unfold evalStmt
-    exact C.bind _ _ (evalArgs_closed C cv ops vals) (fun _ => ops.ret _)
+    exact C.bind _ _ (evalArgs_closed C cv ops vals) (fun _ => sops.ret _)
   | .ifS cond body elifs els =>
     unfold evalStmt
     exact C.bind _ _ (evalExpr_closed C cv ops cond true) (fun _ => C.bind _ _ (evalConds_closed hp elifs) (fun _ =>
-      C.bind _ _ (ops.ifStart _) (fun _ => C.bind _ _ (evalBlock_closed hp body) (fun _ =>
-        C.bind _ _ (evalElifs_closed hp elifs _) (fun _ => C.bind _ _ (evalElse_closed hp els) (fun _ => ops.ifEnd))))))
+      C.bind _ _ (sops.ifStart _) (fun _ => C.bind _ _ (evalBlock_closed hp body) (fun _ =>
+        C.bind _ _ (evalElifs_closed hp elifs _) (fun _ => C.bind _ _ (evalElse_closed hp els) (fun _ => sops.ifEnd))))))
   | .forS init cond incr body =>
     unfold evalStmt
-    exact C.bind _ _ (evalInit_closed hp init) (fun _ => C.bind _ _ ops.forStart (fun _ => C.bind _ _ (evalIncr_closed hp incr) (fun _ =>
-      C.bind _ _ (evalExpr_closed C cv ops cond true) (fun _ => C.bind _ _ (ops.forCondition _) (fun _ =>
-        C.bind _ _ (evalBlock_closed hp body) (fun _ => ops.forEnd))))))
-  | .brk => unfold evalStmt; exact ops.brk
-  | .cont => unfold evalStmt; exact ops.cont
-  | .print es => unfold evalStmt; exact C.bind _ _ (evalAll_closed C cv ops es) (fun _ => ops.print _)
-  | .panic e => unfold evalStmt; exact C.bind _ _ (evalExpr_closed C cv ops e true) (fun _ => ops.panic _)
+    exact C.bind _ _ (evalInit_closed hp init) (fun _ => C.bind _ _ sops.forStart (fun _ => C.bind _ _ (evalIncr_closed hp incr) (fun _ =>
+      C.bind _ _ (evalExpr_closed C cv ops cond true) (fun _ => C.bind _ _ (sops.forCondition _) (fun _ =>
+        C.bind _ _ (evalBlock_closed hp body) (fun _ => sops.forEnd))))))
+  | .brk => unfold evalStmt; exact sops.brk
+  | .cont => unfold evalStmt; exact sops.cont
+  | .print es => unfold evalStmt; exact C.bind _ _ (evalAll_closed C cv ops es) (fun _ => sops.print _)
+  | .panic e => unfold evalStmt; exact C.bind _ _ (evalExpr_closed C cv ops e true) (fun _ => sops.panic _)
   | .expr (.write path data append) =>
     unfold evalStmt
     split
@@ -255,7 +261,7 @@ theorem evalStmt_closed (hp : PanicOK C) (st : Stmt) : C.P (evalStmt cv st) := b
     · refine C.bind _ _ (evalExpr_closed C cv ops path true) (fun _ => ?_)
       split
       · exact C.fail _
-      · exact C.bind _ _ (evalExpr_closed C cv ops data true) (fun _ => C.bind _ _ (evalAppend_closed C cv ops append) (fun _ => ops.writeFile _ _ _))
+      · exact C.bind _ _ (evalExpr_closed C cv ops data true) (fun _ => C.bind _ _ (evalAppend_closed C cv ops append) (fun _ => sops.writeFile _ _ _))
   | .expr (.boolLit _) | .expr (.intLit _) | .expr (.strLit _) | .expr (.varEval _) | .expr (.unary _ _ _)
   | .expr (.binary _ _ _) | .expr (.compare _ _ _) | .expr (.logical _ _ _) | .expr (.group _) | .expr (.call _ _ _)
   | .expr (.app _ _ _) | .expr (.sliceNew _ _) | .expr (.sliceEval _ _ _) | .expr (.substr _ _ _) | .expr (.len _)
@@ -272,7 +278,7 @@ theorem evalIncr_closed (hp : PanicOK C) (incr : Option Stmt) : C.P (evalIncr cv
   match incr with
   | some i =>
     unfold evalIncr
-    exact C.bind _ _ ops.forIncrementStart (fun _ => C.bind _ _ (evalStmt_closed hp i) (fun _ => ops.forIncrementEnd))
+    exact C.bind _ _ sops.forIncrementStart (fun _ => C.bind _ _ (evalStmt_closed hp i) (fun _ => sops.forIncrementEnd))
   | none => unfold evalIncr; exact C.pure _
 
 theorem evalElse_closed (hp : PanicOK C) (els : List Stmt) : C.P (evalElse cv els) := by
@@ -280,11 +286,11 @@ theorem evalElse_closed (hp : PanicOK C) (els : List Stmt) : C.P (evalElse cv el
   | [] => unfold evalElse; exact C.pure _
   | s :: rest =>
     unfold evalElse
-    exact C.bind _ _ ops.elseStart (fun _ => C.bind _ _ (evalStmt_closed hp s) (fun _ => C.bind _ _ (evalStmts_closed hp rest) (fun _ => ops.elseEnd)))
+    exact C.bind _ _ sops.elseStart (fun _ => C.bind _ _ (evalStmt_closed hp s) (fun _ => C.bind _ _ (evalStmts_closed hp rest) (fun _ => sops.elseEnd)))
 
 theorem evalBlock_closed (hp : PanicOK C) (body : List Stmt) : C.P (evalBlock cv body) := by
   match body with
-  | [] => unfold evalBlock; exact ops.nop
+  | [] => unfold evalBlock; exact sops.nop
   | s :: rest =>
     unfold evalBlock
     exact C.bind _ _ (evalStmt_closed hp s) (fun _ => evalStmts_closed hp rest)
@@ -307,8 +313,8 @@ theorem evalElifs_closed (hp : PanicOK C) (elifs : List (Expr × List Stmt)) (co
   match elifs, conds with
   | (_, body) :: rest, c :: cs =>
     unfold evalElifs
-    exact C.bind _ _ (ops.elseIfStart _) (fun _ => C.bind _ _ (evalBlock_closed hp body) (fun _ =>
-      C.bind _ _ ops.elseIfEnd (fun _ => evalElifs_closed hp rest cs)))
+    exact C.bind _ _ (sops.elseIfStart _) (fun _ => C.bind _ _ (evalBlock_closed hp body) (fun _ =>
+      C.bind _ _ sops.elseIfEnd (fun _ => evalElifs_closed hp rest cs)))
   | [], _ => unfold evalElifs; exact C.pure _
   | _ :: _, [] => unfold evalElifs; exact C.pure _
 end
